@@ -64,11 +64,12 @@ Theorem von_mises_km_3d : forall s0 s1 s2 s3 s4 s5,
   let c := 1 / sqrt 2 in
   sqrt (vm3_arg s0 s1 s2 (s3 * c) (s4 * c) (s5 * c)) = sqrt (3 / 2 * km_devnorm2 s0 s1 s2 s3 s4 s5).
 Proof.
-  intros. f_equal. unfold vm3_arg, km_devnorm2.
-  replace ((s3 * c) ^ 2) with (s3 ^ 2 * c ^ 2) by ring.
-  replace ((s4 * c) ^ 2) with (s4 ^ 2 * c ^ 2) by ring.
-  replace ((s5 * c) ^ 2) with (s5 ^ 2 * c ^ 2) by ring.
-  unfold c. rewrite inv_sqrt2_sq. field.
+  (* robust to any algebraically equivalent way of writing the formula: go through the *_sq
+     theorem and the substitution s_k = sqrt 2 * t_k of the shear entries *)
+  intros. f_equal. rewrite von_mises_3d_sq. unfold devdev, km_devnorm2.
+  assert (H : forall s, (s * c) ^ 2 = s ^ 2 / 2).
+  { intro s. replace ((s * c) ^ 2) with (s ^ 2 * c ^ 2) by ring. unfold c. rewrite inv_sqrt2_sq. field. }
+  rewrite !H. field.
 Qed.
 Print Assumptions von_mises_km_3d.
 
@@ -76,15 +77,18 @@ Theorem von_mises_km_2d : forall s0 s1 s2,
   let c := 1 / sqrt 2 in
   sqrt (vm2_arg s0 s1 (s2 * c)) = sqrt (3 / 2 * km_devnorm2 s0 s1 0 0 0 s2).
 Proof.
-  intros. f_equal. unfold vm2_arg, km_devnorm2.
-  replace ((s2 * c) ^ 2) with (s2 ^ 2 * c ^ 2) by ring.
-  unfold c. rewrite inv_sqrt2_sq. field.
+  intros. f_equal. rewrite von_mises_2d_sq. unfold devdev, km_devnorm2.
+  assert (H : forall s, (s * c) ^ 2 = s ^ 2 / 2).
+  { intro s. replace ((s * c) ^ 2) with (s ^ 2 * c ^ 2) by ring. unfold c. rewrite inv_sqrt2_sq. field. }
+  rewrite !H. field.
 Qed.
 Print Assumptions von_mises_km_2d.
 
 (* sanity: uniaxial stress s gives |s| *)
 Example von_mises_uniaxial : forall s, sqrt (vm3_arg s 0 0 0 0 0) = Rabs s.
 Proof.
-  intro s. unfold vm3_arg. replace (1 / 2 * ((s - 0) ^ 2 + (0 - 0) ^ 2 + (0 - s) ^ 2 + 6 * (0 ^ 2 + 0 ^ 2 + 0 ^ 2))) with (s * s) by field.
+  intro s. rewrite von_mises_3d_sq.
+  assert (E : 3 / 2 * devdev s 0 0 0 0 0 = Rsqr s) by (unfold devdev, Rsqr; field).
+  rewrite E.
   apply sqrt_Rsqr_abs.
 Qed.
